@@ -75,3 +75,14 @@ Print Assumptions C05_flag_sound.
 Theorem C05_exec_total l st : exec_block (depth_block l) l 0 st <> [].
 Proof. exact (exec_total l st). Qed.
 Print Assumptions C05_exec_total.
+
+(* outside that fragment the statement is false of the faithful walker model (the
+   known finding C05:nested-scope-mutation): a mutation of **kwargs in a nested
+   scope, run before the forwarding call, is processed only afterwards *)
+Theorem C05_nested_refuted :
+  exists fls st' evs e,
+    visitor_flags 1 2 nested_witness = Some fls /\
+    In (st', evs) (exec_block 1 nested_witness 0 (mkSem true true)) /\ In e evs /\
+    ~ flag_sound (nth (ev_site e) fls dflags) e.
+Proof. exact flags_sound_nested_refuted. Qed.
+Print Assumptions C05_nested_refuted.
